@@ -29,9 +29,16 @@ def log(*a):
     print("[wv %6.1fs]" % (time.time() - T0), *a, file=sys.stderr, flush=True)
 
 
+_CURRENT = []      # the check in progress (so that a machinery failure cannot swallow violations already established)
+
+
 def tool_error(msg):
-    """Machinery failure (not a verdict about the code under test)."""
+    """Machinery failure (not a verdict about the code under test). Violations that were established before the
+    failure are still reported (exit 1): a later part of a check breaking down does not un-find them."""
     print("TOOL-ERROR: " + msg, flush=True)
+    if _CURRENT and _CURRENT[-1].violations and not getattr(_CURRENT[-1], "_finishing", False):
+        _CURRENT[-1].notes.append("check incomplete: " + msg)
+        _CURRENT[-1].finish()
     sys.exit(2)
 
 
@@ -275,6 +282,7 @@ class Check:
         self.notes = []
         self.t0 = time.time()
         self._n = 0
+        _CURRENT.append(self)
 
     def violation(self, key, what, replay_obj):
         """key: stable identification of the failing input; what: human text."""
@@ -299,6 +307,7 @@ class Check:
             self.coverage["transitions"] = self.coverage.get("transitions", 0) + r["states"]
 
     def finish(self):
+        self._finishing = True
         kf = known_findings()
         known = {f["key"]: f for f in kf.get("findings", []) if f.get("property") == self.pid}
         unknown = []
@@ -332,6 +341,8 @@ class Check:
         if unknown:
             print("%s: %d violation(s), %d distinct" % (self.pid, len(unknown), len(shown)))
             sys.exit(1)
+        if any(n.startswith("check incomplete") for n in self.notes):
+            sys.exit(2)
         print("%s: ok (%s tier, %.0fs)" % (self.pid, self.tier, time.time() - self.t0))
         sys.exit(0)
 
